@@ -50,6 +50,9 @@ CONFIGS = {
     "K4": ["opt-low-memory-hex-str-decode-half-table"],
     "K5": ["opt-low-memory-hex-str-decode-min-table"],
     "K6": ["simd", "detect-features", "opt-default"],
+    # static (compile-time) backend selection: no run-time detection; on x86_64 without extra
+    # -C target-feature flags this selects the SSE2 backends
+    "K6s": ["simd", "opt-default"],
     "K7": ["opt-default", "strict-parser"],
     "K8": ["opt-default", "serde"],
     "K8s": ["opt-default", "serde", "strict-parser"],
